@@ -286,7 +286,12 @@ func runFuzz19(w *bufio.Writer, id int, seed int64) (fails int) {
 			if vshim.CountGoroutines("startAsyncWritesRoutine") == 0 {
 				break
 			}
-			vshim.Tick("startAsyncWritesRoutine", 5*time.Second)
+			if _, ok := vshim.Tick("startAsyncWritesRoutine", time.Second); !ok {
+				// the routine does not go to sleep (a threshold or a timeout of 0 in the damaged settings makes it
+				// flush and commit in a loop): it is running, not blocked; no call of the API is waiting for it.
+				// Observed, outside the property (DESIGN.md section 5); the calls below still have to return.
+				return "ok-routine-never-sleeps"
+			}
 		}
 		return "ok"
 	})
